@@ -207,7 +207,17 @@ func c05Cmd(t *Term) string {
 			fs = parsley.NewFileSet(text.NewFile("x", filler), f)
 		}
 		ctx := parsley.NewContext(fs, r)
-		v, err := parsley.Evaluate(ctx, c05Grammar(budget))
+		g := c05Grammar(budget)
+		// one grammar value serves any number of inputs: it evaluates three other texts first
+		for _, w := range warmInputs(raw) {
+			wf, wfs := warmFile(w, offset)
+			func() {
+				defer func() { _ = recover() }()
+				_, _ = parsley.Evaluate(parsley.NewContext(wfs, text.NewReader(wf)), g)
+			}()
+			budget.depth, budget.calls = 0, 0
+		}
+		v, err := parsley.Evaluate(ctx, g)
 		if err != nil {
 			return OT("Err", OStr(err.Error()))
 		}
